@@ -50,7 +50,7 @@ TOLF = 32.0
 def plan(tier):
     if tier == "thorough":
         return [{"variant": "plain", "workers": 16, "cases": 200000}]
-    return [{"variant": "plain", "workers": 16, "cases": 12000}]
+    return [{"variant": "plain", "workers": 16, "cases": 8000}]
 
 
 def run(ctx):
